@@ -82,7 +82,8 @@ PLAN = {   # which properties' quick checks are run against which seeded change
     "C09-b": ["C09"], "C10-b": ["C10"], "C16-b": ["C16"], "C18-b": ["C18"], "C20-b": ["C20"],
     "C06-b": ["C06"], "C11-b": ["C11"], "C12-b": ["C12", "C13"], "C13-b": ["C13"], "C14-b": ["C14"], "C15-b": ["C15"], "C17-b": ["C17"],
     "C19-b": ["C19", "C07"],
-    "C09-c": ["C09", "C16"], "C16-c": ["C16"],
+    "C09-c": ["C09", "C16"], "C16-c": ["C16"], "C10-c": ["C10"], "C11-c": ["C11"], "C18-c": ["C18"],
+    "C02-c": ["C02"], "C03-c": ["C03"], "C04-c": ["C04", "C17"], "C05-c": ["C05"], "C20-c": ["C20"],
 }
 
 
